@@ -417,6 +417,110 @@ def large_assignments():
     return out
 
 
+def path_networks():
+    """(name, n, arcs, source, sink, {demand: min cost or None}): k node-disjoint source-sink paths of 2..k+1 arcs, capacities
+    1-3 and costs from fixed formulas (one arc of every second path has a negative cost), optionally with useless cross arcs
+    of high cost between neighbouring paths; the cheapest flow of d units fills the paths in order of their cost per unit"""
+    out = []
+    for k, cross in ((4, False), (6, False), (6, True), (9, True)):
+        arcs = []
+        nxt = 2
+        paths = []  # (cost per unit, capacity)
+        firsts = []
+        for p in range(k):
+            hops = 2 + p
+            cap = 1 + (p * 2) % 3
+            prev = 0
+            tot = 0
+            inner = []
+            for h in range(hops):
+                c = 1 + (3 * p + 5 * h) % 7
+                if p % 2 == 1 and h == 1:
+                    c = -2
+                tot += c
+                if h == hops - 1:
+                    arcs.append((prev, 1, cap + (h % 2), c))
+                else:
+                    arcs.append((prev, nxt, cap + (h % 2), c))
+                    inner.append(nxt)
+                    prev = nxt
+                    nxt += 1
+            paths.append((tot, cap))
+            firsts.append(inner)
+        if cross:
+            for p in range(k - 1):
+                arcs.append((firsts[p][0], firsts[p + 1][0], 2, 50))
+        n = nxt
+        table = {}
+        total_cap = sum(c for _, c in paths)
+        for d in range(0, total_cap + 2):
+            if d > total_cap:
+                table[d] = None
+                continue
+            rest, cost = d, 0
+            for unit, cap in sorted(paths):
+                take = min(rest, cap)
+                cost += take * unit
+                rest -= take
+            table[d] = cost
+        out.append((f"{k}_disjoint_paths{'_with_cross_arcs' if cross else ''}", n, arcs, 0, 1, table))
+    return out
+
+
+def _paths_chunk(params, lo, hi):
+    from solvor.flow import min_cost_flow
+    from solvor.network_simplex import network_simplex
+    from solvor.types import Status
+
+    nets = path_networks()
+    r = new_result()
+    for idx in range(lo, hi):
+        name, n, arcs, s, t, table = nets[idx // 2]
+        order = idx % 2
+        alist = list(arcs) if order == 0 else list(reversed(arcs))
+        graph = {}
+        for u, v, cap, c in alist:
+            graph.setdefault(u, []).append((v, cap, c))
+        for d, want in table.items():
+            sup = [0] * n
+            sup[s] += d
+            sup[t] -= d
+            for fname, fn in (("min_cost_flow", lambda: min_cost_flow({k_: list(v_) for k_, v_ in graph.items()}, s, t, d)), ("network_simplex", lambda: network_simplex(n, [tuple(a) for a in alist], list(sup)))):
+                wit = {"paths": name, "order": order, "demand": d, "function": fname}
+                r["n"] += 1
+                r["nontrivial"] += 1
+
+                def call():
+                    try:
+                        return fn(), None
+                    except Exception as ex:  # noqa: BLE001
+                        return None, f"{type(ex).__name__}: {ex}"
+
+                v, verdict = guarded(call, 30.0, 300_000_000)
+                res, err = (None, None) if verdict else v
+                how = f"{fname} on {name} ({n} nodes, arc list {'reversed' if order else 'as built'}), demand {d}"
+                if verdict or err:
+                    r["outcomes"][f"paths:{fname}:{'hang' if verdict else 'raised'}"] += 1
+                    r["violations"].append(viol(fname, "nontermination" if verdict else "raised", wit, f"{how}: {verdict or err}"))
+                    continue
+                r["outcomes"][f"paths:{fname}:{res.status.name}"] += 1
+                if want is None:
+                    if res.status != Status.INFEASIBLE:
+                        r["violations"].append(viol(fname, "flow_for_infeasible", wit, f"{how}: status {res.status.name} although the paths carry less than {d} units"))
+                    continue
+                if res.status != Status.OPTIMAL:
+                    r["violations"].append(viol(fname, "wrong_infeasible" if res.status == Status.INFEASIBLE else "status", wit, f"{how}: status {res.status.name}, a flow of cost {want} exists"))
+                    continue
+                e = check_flow(n, alist, sup, res.solution, res.objective)
+                if e:
+                    r["violations"].append(viol(fname, e[0], wit, f"{how}: {e[1]}"))
+                elif differs(res.objective, want):
+                    r["violations"].append(viol(fname, "not_minimum", wit, f"{how}: cost {res.objective}, the minimum in closed form is {want}"))
+        if not r["samples"]:
+            r["samples"].append({"paths": name})
+    return r
+
+
 def _large_assign_chunk(params, lo, hi):
     from solvor.flow import solve_assignment
 
@@ -470,6 +574,7 @@ def jobs(tier, seed):
         js.append(Job(f"n4_arcsets_{k}", comb(12, k) * (2 * len(cs)) ** k, _n4_chunk, (k, (1, 2), cs), describe=f"k distinct ordered pairs on 4 nodes, caps {{1,2}}, costs {cs}; both list orders"))
     for k in (4, 5, 6):
         js.append(Job(f"n5_layered_{k}arcs_unit_costs012", comb(len(L5_PAIRS), k) * 3**k, _layered5_chunk, k, describe="5 nodes, source out-arcs only, sink in-arcs only, k unit-capacity arcs with costs {0,1,2}, demand 1 and 2, two dict orders: the smallest networks on which Bellman-Ford needs a sweep that only lowers labels"))
+    js.append(Job("disjoint_path_networks", len(path_networks()) * 2, _paths_chunk, None, chunk=1, describe="4-9 node-disjoint source-sink paths of 2-10 arcs (15-60 nodes), capacities 1-4, one negative arc on every second path, optional useless cross arcs; every demand from 0 to one more than the total capacity; min_cost_flow and network_simplex against the closed form (fill the paths in order of unit cost); both arc-list orders"))
     js.append(Job("assignment_large_planted", len(large_assignments()), _large_assign_chunk, None, chunk=1, describe="1x11, 11x1, 11x11, 12x13, 13x12 matrices with a planted zero-cost matching (two-digit row/column indices)"))
     for rows in (1, 2, 3):
         for cols in (1, 2, 3):
